@@ -3,6 +3,8 @@
 of /repo (never /repo itself), and print / record which property's check reports it.
 
     python3 tools/seed_matrix.py [seed-dir-name ...]      -> writes seeded/MATRIX.json
+    python3 tools/seed_matrix.py --shard i/n              -> every n-th seed from i, writes seeded/.matrix-shard-i.json
+    python3 tools/seed_matrix.py --merge                  -> folds the shard files into seeded/MATRIX.json (and removes them)
 """
 import importlib
 import json
@@ -19,14 +21,37 @@ from feoxlint.rulekit import Ctx  # noqa: E402
 
 
 def main():
-    want = [a for a in sys.argv[1:] if not a.startswith("-")]
     sd = os.path.join(VERIF, "seeded")
+    mpath = os.path.join(sd, "MATRIX.json")
+    if "--merge" in sys.argv:
+        matrix = json.load(open(mpath)) if os.path.exists(mpath) else {}
+        rc = 0
+        for fn in sorted(os.listdir(sd)):
+            if fn.startswith(".matrix-shard-") and fn.endswith(".json"):
+                matrix.update(json.load(open(os.path.join(sd, fn))))
+                os.remove(os.path.join(sd, fn))
+        have = {d for d in os.listdir(sd) if os.path.isfile(os.path.join(sd, d, "patch.diff"))}
+        matrix = {k: v for k, v in matrix.items() if k in have}
+        with open(mpath, "w") as f:
+            json.dump(matrix, f, indent=1, sort_keys=True)
+        missed = sorted(k for k, v in matrix.items() if not v.get("caught_by_target"))
+        print("seeds: %d, caught by target: %d, missed: %s, without entry: %s" % (len(matrix), len(matrix) - len(missed), missed, sorted(have - set(matrix))))
+        return 1 if missed or have - set(matrix) else 0
+    shard = None
+    argv = list(sys.argv[1:])
+    if "--shard" in argv:
+        i, n = argv[argv.index("--shard") + 1].split("/")
+        shard = (int(i), int(n))
+        del argv[argv.index("--shard"):argv.index("--shard") + 2]
+    want = [a for a in argv if not a.startswith("-")]
     names = sorted(d for d in os.listdir(sd) if os.path.isfile(os.path.join(sd, d, "patch.diff")))
     if want:
         names = [n for n in names if n in want]
+    if shard:
+        names = names[shard[0]::shard[1]]
+        mpath = os.path.join(sd, ".matrix-shard-%d.json" % shard[0])
     pids = sorted(f[:-3] for f in os.listdir(os.path.join(VERIF, "rules")) if f.startswith("C") and f[1:3].isdigit() and f.endswith(".py"))
-    mpath = os.path.join(sd, "MATRIX.json")
-    matrix = json.load(open(mpath)) if os.path.exists(mpath) else {}
+    matrix = json.load(open(mpath)) if os.path.exists(mpath) and not shard else {}
     rc = 0
     for name in names:
         d = mutants.make_scratch(extract.REPO)
